@@ -34,7 +34,7 @@ def _it_accumulate(xs, func=None, initial=None):
     return tuple(itertools.accumulate(xs, func, initial=initial)) if func is not None or initial is not None else tuple(itertools.accumulate(xs))
 
 
-_PURE_BUILTINS = {"compress": lambda d, s_: tuple(x for x, k in zip(d, s_) if k), "pairwise": _it_pairwise, "accumulate": _it_accumulate, "chain": lambda *a: tuple(x for it_ in a for x in it_), "filter": lambda f, xs: tuple(x for x in xs if (f(x) if f is not None else x)), "map": lambda f, *xs: tuple(map(f, *xs)), "reduce": __import__("functools").reduce, "prod": __import__("math").prod, "ceil": __import__("math").ceil, "floor": __import__("math").floor, "dict": dict, "enumerate": lambda *a, **k: tuple(enumerate(*a, **k)), "range": lambda *a: tuple(range(*a)), "zip": lambda *a, **k: tuple(zip(*a, **k)), "sum": sum, "reversed": lambda x: tuple(reversed(x)), "str": str, "frozenset": frozenset, "islice": lambda *a: tuple(__import__("itertools").islice(*a)), "from_iterable": lambda xs: tuple(y for x in xs for y in x), "zip_longest": lambda *a, **k: tuple(__import__("itertools").zip_longest(*a, **k)), "starmap": lambda f, xs: tuple(f(*x) for x in xs), "product": lambda *a, **k: tuple(__import__("itertools").product(*a, **k)), "repeat": lambda x, n: (x,) * n, "divmod": divmod, "round": round, "hasattr": hasattr, "callable": callable, "getattr": getattr, "issubclass": issubclass}
+_PURE_BUILTINS = {"compress": lambda d, s_: tuple(x for x, k in zip(d, s_) if k), "pairwise": _it_pairwise, "accumulate": _it_accumulate, "chain": lambda *a: tuple(x for it_ in a for x in it_), "filter": lambda f, xs: tuple(x for x in xs if (f(x) if f is not None else x)), "map": lambda f, *xs: tuple(map(f, *xs)), "reduce": __import__("functools").reduce, "prod": __import__("math").prod, "ceil": __import__("math").ceil, "floor": __import__("math").floor, "dict": dict, "enumerate": lambda *a, **k: tuple(enumerate(*a, **k)), "range": lambda *a: tuple(range(*a)), "zip": lambda *a, **k: tuple(zip(*a, **k)), "sum": sum, "reversed": lambda x: tuple(reversed(x)), "str": str, "frozenset": frozenset, "islice": lambda *a: tuple(__import__("itertools").islice(*a)), "from_iterable": lambda xs: tuple(y for x in xs for y in x), "zip_longest": lambda *a, **k: tuple(__import__("itertools").zip_longest(*a, **k)), "starmap": lambda f, xs: tuple(f(*x) for x in xs), "product": lambda *a, **k: tuple(__import__("itertools").product(*a, **k)), "repeat": lambda x, n: (x,) * n, "divmod": divmod, "round": round, "hasattr": hasattr, "callable": callable, "getattr": getattr, "issubclass": issubclass, "iter": iter, "next": next}
 _PURE_METHODS = {"get", "items", "values", "keys", "index", "count", "copy", "append", "extend", "insert", "pop", "setdefault", "join", "sort", "reverse", "split", "startswith", "endswith", "strip", "format", "update", "add", "union", "issubset", "remove", "discard"}  # on concrete containers of the case (local to the simulation)
 
 
